@@ -948,6 +948,143 @@ fn affinity(pr: &PropRun) -> crate::engine::runner::LaneReport {
     rep
 }
 
+// ---------------------------------------------------------------- re-entrant local recorders
+//
+// A locally installed recorder that emits through the macros from inside one of its own calls (a self-instrumenting
+// recorder, a wrapping layer): its scope is still open while the call runs, so the nested emission goes to the
+// innermost local recorder like any other, and guards created or dropped around such calls restore what they saved.
+
+/// Logs under `inner`'s identity; for the name "nest_me" it first emits a counter through the macros, for
+/// "nest_scope" it opens (and closes) a local scope on `other` from inside the call and emits in it.
+struct NestingRecorder {
+    inner: LogRecorder,
+    other: &'static LogRecorder,
+}
+impl metrics::Recorder for NestingRecorder {
+    fn describe_counter(&self, k: metrics::KeyName, u: Option<Unit>, d: metrics::SharedString) {
+        match k.as_str() {
+            "nest_me" => counter!("nested_from_inside").increment(1),
+            "nest_scope" => {
+                metrics::with_local_recorder(self.other, || counter!("nested_in_inner_scope").increment(1));
+                counter!("nested_after_inner_scope").increment(1);
+            }
+            _ => {}
+        }
+        self.inner.describe_counter(k, u, d)
+    }
+    fn describe_gauge(&self, k: metrics::KeyName, u: Option<Unit>, d: metrics::SharedString) {
+        self.inner.describe_gauge(k, u, d)
+    }
+    fn describe_histogram(&self, k: metrics::KeyName, u: Option<Unit>, d: metrics::SharedString) {
+        self.inner.describe_histogram(k, u, d)
+    }
+    fn register_counter(&self, k: &metrics::Key, m: &metrics::Metadata<'_>) -> metrics::Counter {
+        if k.name() == "register_nests" {
+            describe_gauge!("nested_describe_from_register", "d");
+        }
+        self.inner.register_counter(k, m)
+    }
+    fn register_gauge(&self, k: &metrics::Key, m: &metrics::Metadata<'_>) -> metrics::Gauge {
+        self.inner.register_gauge(k, m)
+    }
+    fn register_histogram(&self, k: &metrics::Key, m: &metrics::Metadata<'_>) -> metrics::Histogram {
+        self.inner.register_histogram(k, m)
+    }
+}
+
+pub fn case_reentrant(bytes: &[u8], _s: &[u8], ctx: &mut Ctx) -> Result<(), Fail> {
+    let variant = bytes.first().copied().unwrap_or(0) % 6;
+    ctx.case(&("re-entrant local recorder", variant));
+    ctx.nontrivial("emission-from-inside-a-local-recorders-call");
+    std::thread::spawn(move || -> Result<(), Fail> {
+        let log = new_log();
+        let other: &'static LogRecorder = Box::leak(Box::new(LogRecorder::new(802, &log)));
+        let outer: &'static LogRecorder = Box::leak(Box::new(LogRecorder::new(803, &log)));
+        let nest: &'static NestingRecorder = Box::leak(Box::new(NestingRecorder { inner: LogRecorder::new(801, &log), other }));
+        let names = |rec: u32| -> Vec<String> { log.lock().unwrap().iter().filter(|e| e.rec == rec).filter_map(|e| match &e.op { Op::Register { name, .. } | Op::Describe { name, .. } => Some(name.clone()), _ => None }).collect() };
+        let want = |rec: u32, expect: &[&str], what: &str| -> Result<(), Fail> {
+            let got = names(rec);
+            ensure!(got == expect, "nested-emission-misrouted", "variant {} ({}): recorder {} received {:?}, expected {:?}; all deliveries {:?}", variant, what, rec, got, expect, log.lock().unwrap().iter().map(|e| (e.rec, format!("{:?}", e.op))).collect::<Vec<_>>());
+            Ok(())
+        };
+        match variant {
+            0 => {
+                metrics::with_local_recorder(nest, || describe_counter!("nest_me", "d"));
+                want(801, &["nested_from_inside", "nest_me"], "closure scope; the recorder emits from inside describe_counter")?;
+            }
+            1 => {
+                let g = metrics::set_default_local_recorder(nest);
+                describe_counter!("nest_me", "d");
+                counter!("register_nests").increment(1);
+                drop(g);
+                counter!("after_scope").increment(1);
+                want(801, &["nested_from_inside", "nest_me", "nested_describe_from_register", "register_nests"], "guard scope; nested emission from describe and from register")?;
+            }
+            2 => {
+                // an enclosing scope on another recorder must not receive the nested emission
+                metrics::with_local_recorder(outer, || {
+                    metrics::with_local_recorder(nest, || describe_counter!("nest_me", "d"));
+                    counter!("outer_after").increment(1);
+                });
+                want(801, &["nested_from_inside", "nest_me"], "inner scope nests")?;
+                want(803, &["outer_after"], "enclosing scope")?;
+            }
+            3 => {
+                // the recorder opens a scope of its own from inside the call; afterwards it is the innermost one again
+                metrics::with_local_recorder(nest, || {
+                    describe_counter!("nest_scope", "d");
+                    counter!("after_the_call").increment(1);
+                });
+                want(802, &["nested_in_inner_scope"], "scope opened inside the call")?;
+                want(801, &["nested_after_inner_scope", "nest_scope", "after_the_call"], "after the inner scope closed")?;
+            }
+            4 => {
+                // the same from a guard scope, twice, with an enclosing scope
+                let g0 = metrics::set_default_local_recorder(outer);
+                let g1 = metrics::set_default_local_recorder(nest);
+                describe_counter!("nest_scope", "d");
+                describe_counter!("nest_me", "d");
+                drop(g1);
+                counter!("outer_after").increment(1);
+                drop(g0);
+                counter!("nobody").increment(1);
+                want(801, &["nested_after_inner_scope", "nest_scope", "nested_from_inside", "nest_me"], "guard scopes")?;
+                want(803, &["outer_after"], "enclosing guard scope restored")?;
+                want(802, &["nested_in_inner_scope"], "scope opened inside the call")?;
+            }
+            _ => {
+                // through with_recorder directly
+                metrics::with_local_recorder(nest, || metrics::with_recorder(|r| r.describe_counter("nest_me".into(), None, "d".into())));
+                want(801, &["nested_from_inside", "nest_me"], "call made through with_recorder")?;
+            }
+        }
+        Ok(())
+    })
+    .join()
+    .map_err(|_| Fail::new("panic-in-thread", "the re-entrant program panicked".to_string()))?
+}
+
+fn reentrant(pr: &PropRun) -> crate::engine::runner::LaneReport {
+    use crate::engine::runner::{LaneReport, Violation};
+    let start = std::time::Instant::now();
+    let mut rep = LaneReport::named("re-entrant-local-recorder");
+    rep.exhaustive = true;
+    for v in 0..6u8 {
+        let mut ctx = Ctx::default();
+        ctx.fingerprint = Some(v as u64);
+        let r = crate::engine::runner::run_case(&case_reentrant, &[v], &[], &mut ctx);
+        rep.account(ctx);
+        if let Err(f) = r {
+            if !pr.cfg.is_known(&f.sig) {
+                rep.violations.push(Violation { lane: "re-entrant-local-recorder".into(), sig: f.sig, msg: f.msg, bytes: vec![v], sched: vec![], decoded: format!("variant {}", v) });
+                break;
+            }
+        }
+    }
+    rep.wall_s = start.elapsed().as_secs_f64();
+    rep
+}
+
 /// A seed-chosen use of local scopes by a thread that has no recorder otherwise (used by the C01 and C02
 /// process lanes before the global recorder is installed): every emission inside a scope must reach that
 /// scope's recorder, none outside may.
@@ -1114,6 +1251,7 @@ pub fn run(cfg: &RunCfg, replay: Option<&str>) -> i32 {
     };
     pr.register("global-recorder-processes", &child_replay);
     pr.register("guard-thread-affinity", &case_affinity);
+    pr.register("re-entrant-local-recorder", &case_reentrant);
     pr.register("exhaustive-guard-orders-le3", &case_exhaustive_replay);
     if let Some(f) = replay {
         return pr.replay(f);
@@ -1129,6 +1267,8 @@ pub fn run(cfg: &RunCfg, replay: Option<&str>) -> i32 {
     let r = exhaustive(&pr);
     pr.push(r);
     let r = affinity(&pr);
+    pr.push(r);
+    let r = reentrant(&pr);
     pr.push(r);
     let r = crate::engine::child::run_children(&pr, "C01", "global-recorder-processes", pr.cfg.cases(12, 300), |_| "1500 generated programs with a global recorder double installed first".to_string());
     pr.push(r);
